@@ -31,6 +31,7 @@ import (
 	"time"
 
 	"go.uber.org/zap"
+	"google.golang.org/protobuf/proto"
 
 	"github.com/ozontech/seq-db/frac/lids"
 	"github.com/ozontech/seq-db/frac/processor"
@@ -38,8 +39,10 @@ import (
 	"github.com/ozontech/seq-db/metric/stopwatch"
 	"github.com/ozontech/seq-db/node"
 	"github.com/ozontech/seq-db/parser"
+	pbstore "github.com/ozontech/seq-db/pkg/storeapi"
 	psearch "github.com/ozontech/seq-db/proxy/search"
 	"github.com/ozontech/seq-db/seq"
+	storesvc "github.com/ozontech/seq-db/storeapi"
 	"github.com/ozontech/seq-db/tests/setup"
 
 	"verifharness/internal/vh"
@@ -433,7 +436,7 @@ func aggregateStr(a *seq.AggregatableSamples, fn string, qs []quant, skip bool) 
 func asTreeChannel(o vh.Opts, rng *vh.RNG, rep *vh.Report) (*vh.Channel, *vh.Oracle) {
 	ch := vh.NewChannel("as.tree", "AggregatableSamples.Merge over random merge trees (any bracketing, any leaf order, zero-valued accumulators) followed by Aggregate for every function vs SV.Agg.AS.merge / aggregate; non-trivial = at least one bin receives two non-empty containers")
 	orc := vh.NewOracle("merge.order", "on the implementation only: two independent random merge trees over the same well-formed partial results give identical Aggregate output (values, quantiles, not-exists, bucket order); non-trivial = >= 3 leaves with a shared bin")
-	n := o.Pick(600, 6000)
+	n := o.Pick(600, 20000)
 	for i := 0; i < n; i++ {
 		wf := rng.Chance(3, 4)
 		collect := rng.Bool()
@@ -536,6 +539,107 @@ func histMergeChannel(o vh.Opts, rng *vh.RNG) *vh.Channel {
 		ch.Add("hist.merge "+strings.Join(hs, " "), "ok "+fmtHist(dst.Histogram), nt, fmt.Sprintf("partials=%d", k))
 	}
 	return ch
+}
+
+
+// ------------------------------------------------------------------ channel codec.roundtrip
+
+// codecChannel: a partial result survives (a) the store -> proxy conversion buildSearchResponse / protobuf wire
+// format / responseToQPR and (b) the JSON form used for stored results, unchanged - the model of both is the identity.
+func codecChannel(o vh.Opts, rng *vh.RNG, rep *vh.Report) (*vh.Channel, *vh.Oracle) {
+	orc := vh.NewOracle("codec.identity", "on the implementation only: a partial result pushed through the store->proxy protobuf conversion or through its JSON form aggregates to the same buckets and holds the same containers as before; non-trivial = >= 2 bins incl. one with a time bin")
+	ch := vh.NewChannel("codec.roundtrip", "AggregatableSamples + histogram through buildSearchResponse -> proto.Marshal/Unmarshal -> responseToQPR, and through MarshalJSON/UnmarshalJSON, vs the identity (model: SV.Agg values are passed unchanged); non-trivial = >= 2 bins incl. one with a time bin")
+	realMids := []uint64{0, 10, 20, 1758800000000, 1758800060000}
+	for i := o.Pick(300, 3000); i > 0; i-- {
+		wf := rng.Chance(3, 4)
+		a := &seq.AggregatableSamples{NotExists: int64(rng.Intn(5)), SamplesByBin: map[seq.AggBin]*seq.SamplesContainer{}}
+		timed := false
+		for j := rng.Intn(6); j > 0; j-- {
+			k := seq.AggBin{MID: seq.MID(realMids[rng.Intn(len(realMids))]), Token: binTokens[rng.Intn(len(binTokens))]}
+			a.SamplesByBin[k] = genSC(rng, wf, rng.Bool())
+			timed = timed || k.MID != 0
+		}
+		hist := map[seq.MID]uint64{}
+		for j := rng.Intn(4); j > 0; j-- {
+			hist[seq.MID(realMids[rng.Intn(len(realMids))])] = uint64(rng.Range(1, 1000))
+		}
+		want := fmtAS(a, false)
+		req := fmt.Sprintf("as.tree count - 0 0 %s", want)
+		nt := len(a.SamplesByBin) >= 2 && timed
+		viaProto := viaProtoStr(a, hist)
+		ch.Add(req, viaProto, nt, "codec=proto", "wf="+vh.B(wf))
+		direct := "ok as=" + want + " res=" + aggregateStr(cloneAS(a), "count", nil, false)
+		orc.Case("codec "+want, nt, "wf="+vh.B(wf))
+		if viaProto != direct {
+			rep.Violate(vh.Violation{Site: "storeapi/grpc_search.go:buildSearchResponse", Class: "partial-result-changed-by-proto-conversion",
+				What: fmt.Sprintf("before %s after %s", direct, viaProto), Replay: []string{"codec " + want}})
+		}
+		viaJSON := viaJSONStr(a)
+		ch.Add(req, viaJSON, nt, "codec=json", "wf="+vh.B(wf))
+		if viaJSON != direct {
+			rep.Violate(vh.Violation{Site: "seq/qpr.go:AggregatableSamples.UnmarshalJSON", Class: "partial-result-changed-by-json",
+				What: fmt.Sprintf("before %s after %s", direct, viaJSON), Replay: []string{"codec " + want}})
+		}
+	}
+	return ch, orc
+}
+
+
+// viaProtoStr: buildSearchResponse -> protobuf wire format -> responseToQPR, rendered like an `as.tree` answer.
+func viaProtoStr(a *seq.AggregatableSamples, hist map[seq.MID]uint64) (res string) {
+	defer func() {
+		if e := recover(); e != nil {
+			res = fmt.Sprintf("panic %v", e)
+		}
+	}()
+	resp := storesvc.VerifC06BuildSearchResponse(&seq.QPR{Aggs: []seq.AggregatableSamples{*cloneAS(a)}, Histogram: hist})
+	wire, err := proto.Marshal(resp)
+	if err != nil {
+		return "err marshal"
+	}
+	var back pbstore.SearchResponse
+	if err := proto.Unmarshal(wire, &back); err != nil {
+		return "err unmarshal"
+	}
+	q := psearch.VerifC06ResponseToQPR(&back, 7)
+	if len(q.Aggs) != 1 || fmtHist(q.Histogram) != fmtHist(hist) {
+		return fmt.Sprintf("err shape aggs=%d hist=%s", len(q.Aggs), fmtHist(q.Histogram))
+	}
+	return "ok as=" + fmtAS(&q.Aggs[0], false) + " res=" + aggregateStr(&q.Aggs[0], "count", nil, false)
+}
+
+// viaJSONStr: MarshalJSON -> UnmarshalJSON.
+func viaJSONStr(a *seq.AggregatableSamples) (res string) {
+	defer func() {
+		if e := recover(); e != nil {
+			res = fmt.Sprintf("panic %v", e)
+		}
+	}()
+	b, err := json.Marshal(cloneAS(a))
+	if err != nil {
+		return "err marshal"
+	}
+	var back seq.AggregatableSamples
+	if err := json.Unmarshal(b, &back); err != nil {
+		return "err unmarshal"
+	}
+	return "ok as=" + fmtAS(&back, false) + " res=" + aggregateStr(&back, "count", nil, false)
+}
+
+// replayCodec re-runs a codec.identity violation (`codec <AS>`).
+func replayCodec(line string, rep *vh.Report, orc *vh.Oracle) {
+	a := parseAS(strings.TrimPrefix(line, "codec "))
+	want := fmtAS(a, false)
+	direct := "ok as=" + want + " res=" + aggregateStr(cloneAS(a), "count", nil, false)
+	orc.Case(line, true)
+	if v := viaProtoStr(a, map[seq.MID]uint64{}); v != direct {
+		rep.Violate(vh.Violation{Site: "storeapi/grpc_search.go:buildSearchResponse", Class: "partial-result-changed-by-proto-conversion",
+			What: fmt.Sprintf("before %s after %s", direct, v), Replay: []string{line}})
+	}
+	if v := viaJSONStr(a); v != direct {
+		rep.Violate(vh.Violation{Site: "seq/qpr.go:AggregatableSamples.UnmarshalJSON", Class: "partial-result-changed-by-json",
+			What: fmt.Sprintf("before %s after %s", direct, v), Replay: []string{line}})
+	}
 }
 
 // ------------------------------------------------------------------ scripted index for processor.IndexSearch
@@ -798,7 +902,7 @@ func genAggs(r *vh.RNG) []aggq {
 func aggIndexChannel(o vh.Opts, rng *vh.RNG) (*vh.Channel, *vh.Channel) {
 	ch := vh.NewChannel("agg.index", "processor.IndexSearch on a scripted index (evalAgg dispatch, sourced OR tree, ConsumeTokenSource lock-step walk, the four aggregators, time bins, parse errors, both orders, multi-valued fields included) vs SV.Agg.evalAgg over SV.Agg.events; non-trivial = >= 2 matching documents carrying the aggregated field or group")
 	hch := vh.NewChannel("hist.run", "histogram of iterateEvalTree (bucket = mid - mid % interval per matching LID) vs SV.Agg.histRun; non-trivial = two matching documents in one bucket")
-	n := o.Pick(500, 6000)
+	n := o.Pick(500, 25000)
 	for i := 0; i < n; i++ {
 		multi := rng.Chance(1, 5)
 		bad := rng.Chance(1, 6)
@@ -1054,18 +1158,7 @@ func parseSys(line string) (sysCase, bool) {
 		return sysCase{}, false
 	}
 	var c sysCase
-	p := strings.Split(f[1], "/")
-	c.agg.fn = p[0]
-	c.agg.group = p[1] == "g1"
-	c.agg.interval, _ = strconv.ParseInt(p[2][1:], 10, 64)
-	if qs := p[3][1:]; qs != "-" {
-		for _, q := range strings.Split(qs, ",") {
-			nd := strings.Split(q, ":")
-			n, _ := strconv.Atoi(nd[0])
-			d, _ := strconv.Atoi(nd[1])
-			c.agg.qs = append(c.agg.qs, quant{n, d})
-		}
-	}
+	c.agg = parseAggq(f[1])
 	c.hist, _ = strconv.ParseUint(strings.TrimPrefix(f[2], "hist="), 10, 64)
 	ord, _ := strconv.Atoi(strings.TrimPrefix(f[3], "order="))
 	c.order = seq.DocsOrder(ord)
@@ -1173,131 +1266,202 @@ func bulkPost(addr string, docs []string) error {
 	return nil
 }
 
+type e2eQ struct {
+	a     aggq
+	hist  uint64
+	order seq.DocsOrder
+}
+
+// e2eEnv brings up one environment, ingests the batches (document MIDs are offsets in ms from a base minute a few
+// minutes in the past), seals where asked, runs the queries and checks every answer against the documents.
+func e2eEnv(rep *vh.Report, orc *vh.Oracle, shards int, batches [][]doc, sealAfter []bool, queries []e2eQ) {
+	dir, err := os.MkdirTemp("", "c06-e2e-")
+	if err != nil {
+		orc.Error = err.Error()
+		return
+	}
+	defer os.RemoveAll(dir)
+	cfg := &setup.TestingEnvConfig{Name: "c06", DataDir: dir, IngestorCount: 1, HotShards: shards, HotFactor: 1,
+		Mapping: seq.Mapping{
+			"m": seq.NewSingleType(seq.TokenizerTypeKeyword, "", 0),
+			"g": seq.NewSingleType(seq.TokenizerTypeKeyword, "", 0),
+			"f": seq.NewSingleType(seq.TokenizerTypeKeyword, "", 0),
+		}}
+	env := setup.NewTestingEnv(cfg)
+	defer env.StopAll()
+	base := uint64(time.Now().Add(-3 * time.Minute).Truncate(time.Minute).UnixMilli())
+	var rel, all []doc
+	sealed := 0
+	for b, docs := range batches {
+		var lines []string
+		for _, d := range docs {
+			abs := d
+			abs.mid = base + d.mid
+			m := map[string]string{"m": vh.B(d.match), "ts": time.UnixMilli(int64(abs.mid)).UTC().Format(time.RFC3339Nano)}
+			if len(d.g) > 0 {
+				m["g"] = d.g[0]
+			}
+			if len(d.f) > 0 {
+				m["f"] = d.f[0]
+			}
+			j, _ := json.Marshal(m)
+			lines = append(lines, string(j))
+			rel = append(rel, d)
+			all = append(all, abs)
+		}
+		if len(lines) > 0 {
+			if err := bulkPost(env.IngestorBulkAddr(), lines); err != nil {
+				orc.Error = "bulk: " + err.Error()
+				return
+			}
+		}
+		if sealAfter[b] {
+			env.WaitIdle()
+			env.SealAll()
+			sealed++
+		}
+	}
+	env.WaitIdle()
+	nmatch := 0
+	for _, d := range all {
+		if d.match {
+			nmatch++
+		}
+	}
+	for _, q := range queries {
+		a := q.a
+		aq := psearch.AggQuery{Func: fnOf(a.fn), Quantiles: qfloats(a.qs), Interval: seq.MID(a.interval)}
+		if a.group {
+			aq.GroupBy = "g"
+		}
+		if a.fn != "count" && a.fn != "unique" {
+			aq.Field = "f"
+		}
+		qpr, _, _, err := env.Search("m:1", 5, setup.NoFetch(), setup.WithAggQuery(aq), setup.WithOrder(q.order),
+			func(sr *psearch.SearchRequest) { sr.Interval = seq.MID(q.hist) })
+		// the case key uses offsets from the base minute, not wall-clock time
+		key := fmt.Sprintf("e2e shards=%d sealed=%d %s hist=%d order=%d docs=%s", shards, sealed, a.String(), q.hist, q.order, fmtDocs(rel))
+		orc.Case(key, nmatch >= 3 && (shards > 1 || sealed > 0), "fn="+a.fn, fmt.Sprintf("shards=%d", shards), fmt.Sprintf("sealed=%d", sealed), "timeseries="+vh.B(a.interval > 0))
+		if err != nil {
+			rep.Violate(vh.Violation{Site: "proxy/search/ingestor.go:Search", Class: "agg-error-on-valid-input", What: err.Error(), Replay: []string{key}})
+			continue
+		}
+		skip := a.interval > 0
+		got := "no-aggs"
+		if len(qpr.Aggs) == 1 {
+			got = aggregateStr(&qpr.Aggs[0], a.fn, a.qs, skip)
+		}
+		// expectations are computed on the offsets and shifted: bins are aligned to the base minute
+		want := expectedBuckets([][]doc{all}, a, skip)
+		if got != want {
+			class := "agg-value-differs-from-documents"
+			if a.fn == "quantile" && !haveInner(a.qs) {
+				class = "quantile-0-1-only-returns-nan"
+			}
+			rep.Violate(vh.Violation{Site: "frac/processor/eval_tree.go:evalAgg", Class: class,
+				What: fmt.Sprintf("end to end %s: got %s want %s", a.String(), shiftMids(got, base), shiftMids(want, base)), Replay: []string{key}})
+		}
+		if q.hist > 0 {
+			wantHist := map[seq.MID]uint64{}
+			for _, d := range all {
+				if d.match {
+					wantHist[seq.MID(d.mid-d.mid%q.hist)]++
+				}
+			}
+			if fmtHist(qpr.Histogram) != fmtHist(wantHist) {
+				rep.Violate(vh.Violation{Site: "frac/processor/search.go:iterateEvalTree", Class: "histogram-differs-from-documents",
+					What: fmt.Sprintf("end to end: got %d buckets want %d buckets (first differing run: %s)", len(qpr.Histogram), len(wantHist), key[:min(len(key), 80)]), Replay: []string{key}})
+			}
+		}
+	}
+}
+
+// shiftMids rewrites the absolute MIDs at the start of every rendered bucket as offsets from base (so that the
+// text of a violation does not depend on the wall clock).
+func shiftMids(res string, base uint64) string {
+	f := strings.SplitN(res, "#", 2)
+	if len(f) != 2 || f[1] == "-" {
+		return res
+	}
+	bs := strings.Split(f[1], ";")
+	for i, b := range bs {
+		p := strings.SplitN(b, "@", 2)
+		if m, err := strconv.ParseUint(p[0], 10, 64); err == nil && m >= base && len(p) == 2 {
+			bs[i] = fmt.Sprintf("+%d@%s", m-base, p[1])
+		}
+	}
+	return f[0] + "#" + strings.Join(bs, ";")
+}
+
 // e2eChild runs the environments of the end-to-end oracle and writes its own report (read by the parent).
 func e2eChild(o vh.Opts) {
 	rep := vh.NewReport("C06", o)
 	orc := vh.NewOracle("agg.e2e", e2eRule)
-	rng := vh.NewRNG(o.Seed*7919 + 13)
-	nEnv := o.Pick(4, 25)
-	for e := 0; e < nEnv; e++ {
-		dir, err := os.MkdirTemp("", "c06-e2e-")
-		if err != nil {
-			orc.Error = err.Error()
-			break
+	if o.Replay != "" {
+		lines, _ := vh.ReadReplay(o.Replay)
+		for _, l := range lines {
+			if strings.HasPrefix(l, "e2e ") {
+				replayE2E(l, rep, orc)
+			}
 		}
+		rep.AddOracle(orc)
+		rep.Write(o.Out)
+		return
+	}
+	rng := vh.NewRNG(o.Seed*7919 + 13)
+	nEnv := o.Pick(4, 60)
+	for e := 0; e < nEnv && orc.Error == ""; e++ {
 		shards := rng.Range(1, 3)
-		cfg := &setup.TestingEnvConfig{Name: "c06", DataDir: dir, IngestorCount: 1, HotShards: shards, HotFactor: 1,
-			Mapping: seq.Mapping{
-				"m": seq.NewSingleType(seq.TokenizerTypeKeyword, "", 0),
-				"g": seq.NewSingleType(seq.TokenizerTypeKeyword, "", 0),
-				"f": seq.NewSingleType(seq.TokenizerTypeKeyword, "", 0),
-			}}
-		env := setup.NewTestingEnv(cfg)
-		base := time.Now().Add(-3 * time.Minute).Truncate(time.Minute)
-		var all []doc
-		batches := rng.Range(1, 4)
-		sealed := 0
-		for b := 0; b < batches; b++ {
+		nb := rng.Range(1, 4)
+		var batches [][]doc
+		var sealAfter []bool
+		for b := 0; b < nb; b++ {
 			docs := genDocs(rng, rng.Range(1, o.Pick(10, 40)), false, false)
-			var lines []string
 			for i := range docs {
 				if len(docs[i].g) > 0 && docs[i].g[0] == "_not_exists" {
 					docs[i].g[0] = "gd"
 				}
-				off := int64(rng.Intn(240)) * 250 // ms offsets inside one minute
-				docs[i].mid = uint64(base.UnixMilli() + off)
-				m := map[string]string{"m": vh.B(docs[i].match), "ts": time.UnixMilli(int64(docs[i].mid)).UTC().Format(time.RFC3339Nano)}
-				if len(docs[i].g) > 0 {
-					m["g"] = docs[i].g[0]
-				}
-				if len(docs[i].f) > 0 {
-					m["f"] = docs[i].f[0]
-				}
-				j, _ := json.Marshal(m)
-				lines = append(lines, string(j))
+				docs[i].mid = uint64(rng.Intn(240)) * 250 // ms offsets inside one minute
 			}
-			if err := bulkPost(env.IngestorBulkAddr(), lines); err != nil {
-				orc.Error = "bulk: " + err.Error()
-				break
-			}
-			all = append(all, docs...)
-			if b+1 < batches && rng.Bool() {
-				env.WaitIdle()
-				env.SealAll()
-				sealed++
-			}
+			batches = append(batches, docs)
+			sealAfter = append(sealAfter, b+1 < nb && rng.Bool())
 		}
-		env.WaitIdle()
-		for q := 0; q < o.Pick(12, 40) && orc.Error == ""; q++ {
+		var qs []e2eQ
+		for q := 0; q < o.Pick(12, 40); q++ {
 			a := genAggs(rng)[0]
 			if a.interval > 0 {
 				a.interval = int64([]int{1000, 2500, 15000}[rng.Intn(3)])
 			} else {
 				a.interval = 0
 			}
-			histMs := uint64([]int{0, 1000, 20000}[rng.Intn(3)])
-			order := seq.DocsOrder(rng.Intn(2))
-			aq := psearch.AggQuery{Func: fnOf(a.fn), Quantiles: qfloats(a.qs), Interval: seq.MID(a.interval)}
-			if a.group {
-				aq.GroupBy = "g"
-			}
-			if a.fn != "count" && a.fn != "unique" {
-				aq.Field = "f"
-			}
-			qpr, _, _, err := env.Search("m:1", 5, setup.NoFetch(), setup.WithAggQuery(aq), setup.WithOrder(order),
-				func(sr *psearch.SearchRequest) { sr.Interval = seq.MID(histMs) })
-			rel := make([]doc, len(all)) // the case key uses offsets from the base minute, not wall-clock time
-			for i, d := range all {
-				rel[i] = d
-				rel[i].mid = d.mid - uint64(base.UnixMilli())
-			}
-			key := fmt.Sprintf("e2e shards=%d sealed=%d %s hist=%d order=%d docs=%s", shards, sealed, a.String(), histMs, order, fmtDocs(rel))
-			nmatch := 0
-			for _, d := range all {
-				if d.match {
-					nmatch++
-				}
-			}
-			orc.Case(key, nmatch >= 3 && (shards > 1 || sealed > 0), "fn="+a.fn, fmt.Sprintf("shards=%d", shards), fmt.Sprintf("sealed=%d", sealed), "timeseries="+vh.B(a.interval > 0))
-			if err != nil {
-				rep.Violate(vh.Violation{Site: "proxy/search/ingestor.go:Search", Class: "agg-error-on-valid-input", What: err.Error(), Replay: []string{key}})
-				continue
-			}
-			skip := a.interval > 0
-			got := "no-aggs"
-			if len(qpr.Aggs) == 1 {
-				got = aggregateStr(&qpr.Aggs[0], a.fn, a.qs, skip)
-			}
-			want := expectedBuckets([][]doc{all}, a, skip)
-			if got != want {
-				class := "agg-value-differs-from-documents"
-				if a.fn == "quantile" && !haveInner(a.qs) {
-					class = "quantile-0-1-only-returns-nan"
-				}
-				rep.Violate(vh.Violation{Site: "frac/processor/eval_tree.go:evalAgg", Class: class,
-					What: fmt.Sprintf("end to end %s: got %s want %s", a.String(), got, want), Replay: []string{key}})
-			}
-			if histMs > 0 {
-				wantHist := map[seq.MID]uint64{}
-				for _, d := range all {
-					if d.match {
-						wantHist[seq.MID(d.mid-d.mid%histMs)]++
-					}
-				}
-				if fmtHist(qpr.Histogram) != fmtHist(wantHist) {
-					rep.Violate(vh.Violation{Site: "frac/processor/search.go:iterateEvalTree", Class: "histogram-differs-from-documents",
-						What: fmt.Sprintf("end to end: got %s want %s", fmtHist(qpr.Histogram), fmtHist(wantHist)), Replay: []string{key}})
-				}
-			}
+			qs = append(qs, e2eQ{a, uint64([]int{0, 1000, 20000}[rng.Intn(3)]), seq.DocsOrder(rng.Intn(2))})
 		}
-		env.StopAll()
-		os.RemoveAll(dir)
-		if orc.Error != "" {
-			break
-		}
+		e2eEnv(rep, orc, shards, batches, sealAfter, qs)
 	}
 	rep.AddOracle(orc)
 	rep.Write(o.Out)
+}
+
+// replayE2E re-runs one end-to-end case: the documents are split evenly over sealed+1 batches.
+func replayE2E(line string, rep *vh.Report, orc *vh.Oracle) {
+	f := strings.Fields(line)
+	if len(f) != 7 {
+		return
+	}
+	shards, _ := strconv.Atoi(strings.TrimPrefix(f[1], "shards="))
+	sealed, _ := strconv.Atoi(strings.TrimPrefix(f[2], "sealed="))
+	a := parseAggq(f[3])
+	hist, _ := strconv.ParseUint(strings.TrimPrefix(f[4], "hist="), 10, 64)
+	ord, _ := strconv.Atoi(strings.TrimPrefix(f[5], "order="))
+	docs := parseDocs(strings.TrimPrefix(f[6], "docs="))
+	nb := sealed + 1
+	var batches [][]doc
+	var sealAfter []bool
+	for b := 0; b < nb; b++ {
+		batches = append(batches, docs[len(docs)*b/nb:len(docs)*(b+1)/nb])
+		sealAfter = append(sealAfter, b+1 < nb)
+	}
+	e2eEnv(rep, orc, shards, batches, sealAfter, []e2eQ{{a, hist, seq.DocsOrder(ord)}})
 }
 
 // e2eParent re-executes this binary for the end-to-end oracle so that a Fatal / panic / hang inside the stores
@@ -1313,7 +1477,11 @@ func e2eParent(o vh.Opts, rep *vh.Report) {
 	var lastErr string
 	for attempt := 0; attempt < 2; attempt++ {
 		ctx, cancel := context.WithTimeout(context.Background(), time.Duration(o.Pick(240, 1200))*time.Second)
-		cmd := exec.CommandContext(ctx, os.Args[0], "-only", "agg.e2e.child", "-tier", o.Tier, "-seed", strconv.FormatInt(o.Seed, 10), "-out", out.Name())
+		args := []string{"-only", "agg.e2e.child", "-tier", o.Tier, "-seed", strconv.FormatInt(o.Seed, 10), "-out", out.Name()}
+		if o.Replay != "" {
+			args = append(args, "-replay", o.Replay)
+		}
+		cmd := exec.CommandContext(ctx, os.Args[0], args...)
 		cmd.Env = append(os.Environ(), "GOMEMLIMIT=8GiB")
 		b, err := cmd.CombinedOutput()
 		cancel()
@@ -1341,6 +1509,66 @@ func e2eParent(o vh.Opts, rep *vh.Report) {
 	rep.AddOracle(orc)
 }
 
+
+// ------------------------------------------------------------------ replay helpers
+
+func parseAS(s string) *seq.AggregatableSamples {
+	f := strings.SplitN(s, "#", 2)
+	ne, _ := strconv.Atoi(f[0])
+	a := &seq.AggregatableSamples{NotExists: int64(ne), SamplesByBin: map[seq.AggBin]*seq.SamplesContainer{}}
+	if len(f) < 2 || f[1] == "-" {
+		return a
+	}
+	for _, b := range strings.Split(f[1], ";") {
+		p := strings.SplitN(b, "@", 3)
+		m, _ := strconv.ParseUint(p[0], 10, 64)
+		a.SamplesByBin[seq.AggBin{MID: seq.MID(m), Token: p[1]}] = parseSC(p[2])
+	}
+	return a
+}
+
+func parseQs(s string, sep string) []quant {
+	var qs []quant
+	if s == "-" || s == "" {
+		return nil
+	}
+	for _, q := range strings.Split(s, ",") {
+		nd := strings.Split(q, sep)
+		n, _ := strconv.Atoi(nd[0])
+		d, _ := strconv.Atoi(nd[1])
+		qs = append(qs, quant{n, d})
+	}
+	return qs
+}
+
+// replayTree re-runs a merge.order violation: `as.tree fn qs skip rpn leaves...` followed by `tree2 rpn`.
+func replayTree(line, tree2 string, rep *vh.Report, orc *vh.Oracle) {
+	f := strings.Fields(line)
+	fn, qs, skip, rpn := f[1], parseQs(f[2], "/"), f[3] == "1", strings.Split(f[4], ",")
+	var leaves []leafSpec
+	for _, l := range f[5:] {
+		leaves = append(leaves, leafSpec{as: parseAS(l), wf: true})
+	}
+	r1 := aggregateStr(evalRPN(rpn, leaves), fn, qs, skip)
+	toks2 := strings.Split(strings.TrimPrefix(tree2, "tree2 "), ",")
+	r2 := aggregateStr(evalRPN(toks2, leaves), fn, qs, skip)
+	orc.Case(line+" || "+tree2, true, "fn="+fn)
+	if r1 != r2 {
+		rep.Violate(vh.Violation{Site: "seq/qpr.go:AggregatableSamples.Merge", Class: "merge-order-dependent",
+			What: fmt.Sprintf("tree %s gives %s, tree %s gives %s", f[4], r1, strings.Join(toks2, ","), r2), Replay: []string{line, tree2}})
+	}
+}
+
+func parseAggq(s string) aggq {
+	var a aggq
+	p := strings.Split(s, "/")
+	a.fn = p[0]
+	a.group = p[1] == "g1"
+	a.interval, _ = strconv.ParseInt(p[2][1:], 10, 64)
+	a.qs = parseQs(p[3][1:], ":")
+	return a
+}
+
 // ------------------------------------------------------------------ main
 
 func main() {
@@ -1361,16 +1589,28 @@ func main() {
 			os.Exit(3)
 		}
 		ch := vh.NewChannel("replay", "replayed driver requests")
-		for _, l := range lines {
+		mo := vh.NewOracle("merge.order", "replayed merge-order cases")
+		hasE2E := false
+		for i, l := range lines {
 			if c, ok := parseSys(l); ok {
 				runSys(c, rep, sys)
 			} else if strings.HasPrefix(l, "sc.ops ") {
 				f := strings.Fields(l)
 				ch.Add(l, runSCOps(strings.Split(f[2], ";"), f[1] == "len"), true)
+			} else if strings.HasPrefix(l, "as.tree ") && i+1 < len(lines) && strings.HasPrefix(lines[i+1], "tree2 ") {
+				replayTree(l, lines[i+1], rep, mo)
+			} else if strings.HasPrefix(l, "e2e ") {
+				hasE2E = true
+			} else if strings.HasPrefix(l, "codec ") {
+				replayCodec(l, rep, mo)
 			}
 		}
 		rep.AddChannel(ch, o.Driver)
 		rep.AddOracle(sys)
+		rep.AddOracle(mo)
+		if hasE2E {
+			e2eParent(o, rep)
+		}
 		rep.Write(o.Out)
 		return
 	}
@@ -1387,6 +1627,11 @@ func main() {
 	if want("hist.merge") {
 		rep.AddChannel(histMergeChannel(o, rng.Fork()), o.Driver)
 	}
+	if want("codec.roundtrip") {
+		ch, orc := codecChannel(o, rng.Fork(), rep)
+		rep.AddChannel(ch, o.Driver)
+		rep.AddOracle(orc)
+	}
 	if want("agg.index") {
 		ch, hch := aggIndexChannel(o, rng.Fork())
 		rep.AddChannel(ch, o.Driver)
@@ -1394,7 +1639,7 @@ func main() {
 	}
 	if want("agg.direct") {
 		r := rng.Fork()
-		for i := o.Pick(1500, 20000); i > 0; i-- {
+		for i := o.Pick(1500, 100000); i > 0; i-- {
 			runSys(genSys(r, o.Pick(8, 16)), rep, sys)
 		}
 		rep.AddOracle(sys)
